@@ -19,3 +19,21 @@ Print Assumptions C06_invariant_after_every_operation.
 Theorem C06_teardown_complete : S_teardown_complete.
 Proof. exact teardown_complete. Qed.
 Print Assumptions C06_teardown_complete.
+
+(* ---- slots that hold other slots by value or refer to slot variables through std::ref (NestModel.v) ---- *)
+Require NestSpec NestProofs.
+
+(* every operation of every history that keeps the std::ref rule succeeds: no dangling parent_, no stale callback entry, the parent chain always ends *)
+Theorem C06_nested_any_order_memory_safe : NestSpec.S_nest_safe.
+Proof. exact NestProofs.nest_safe. Qed.
+Print Assumptions C06_nested_any_order_memory_safe.
+
+(* a parent_ always denotes a live slot_rep whose functor holds or refers to the child *)
+Theorem C06_nested_parent_denotes_live_holder : NestSpec.S_nest_parent_exact.
+Proof. exact NestProofs.nest_parent_exact. Qed.
+Print Assumptions C06_nested_parent_denotes_live_holder.
+
+(* a parent_ or a callback entry denotes one slot_rep *)
+Theorem C06_nested_ids_unique : NestSpec.S_nest_ids_unique.
+Proof. exact NestProofs.nest_ids_unique. Qed.
+Print Assumptions C06_nested_ids_unique.
